@@ -13,10 +13,11 @@ Theorem C17_classify : forall f : wfield,
   wf_ty (resolved_type f) = true -> kinds_of f = Ok (spec_kind (resolved_type f)).
 Proof. exact classify_ok. Qed.
 
-(* the same for declared annotations: forward references at the leaves resolve (through the module namespace) into
-   the supported grammar, to the class they name *)
-Theorem C17_classify_declared : forall p t d df, wf_ann t = true -> leaf_ok p t = true ->
-  exists rt, resolve p t = Ok rt /\
+(* the same for declared annotations: forward references at the leaves resolve (through the module namespace; a
+   reference to a class defined inside a function or nested in a class through the diagram's classes ns) into the
+   supported grammar, to the class they name *)
+Theorem C17_classify_declared : forall p ns t d df, wf_ann t = true -> leaf_ok p t = true -> locals_in ns t = true ->
+  exists rt, resolve p ns t = Ok rt /\
     kinds_of {| resolved_type := rt; has_default := d; has_default_factory := df |} = Ok (spec_kind rt) /\
     forall c, about rt c = about t c.
 Proof. exact classify_declared. Qed.
